@@ -74,6 +74,9 @@ func runC03(c *Ctx) {
 	// the label validators decided exactly (c03exact.go): for those the
 	// structural rules about the same function are only the fall-back
 	exactLabels := c03LabelsExact(c, "C03")
+	// ... and the name validators on short names: how a name is cut into labels
+	// and which validator each label gets
+	exactNames := c03NamesExact(c, "C03")
 	c.L.Trust("go/types + go/ssa", "/verif/sa/errshape", "/verif/sa/lincon", "/verif/sa/boolfn", "/verif/sa/skel", "idna.ToASCII treated as opaque")
 	c.L.Assumef("length windows [1,63], [2,16], [1,253] and the rune classes are read from the property statement")
 	c.L.Floor("C03.error-shape", 7)
@@ -186,7 +189,7 @@ func runC03(c *Ctx) {
 				c.undecided("C03.accept-window", f, "idna.ToASCII(name)", nil, "the ASCII form whose length is bounded is not computed from the parameter")
 			}
 		}
-		if s.isName && subject[f] != nil {
+		if s.isName && subject[f] != nil && !exactNames[s.name] {
 			c03LabelIteration(c, f, subject[f])
 		}
 		// ---- R4 ----
@@ -201,7 +204,7 @@ func runC03(c *Ctx) {
 				missing = append(missing, a)
 			}
 		}
-		if exactLabels[s.name] {
+		if exactLabels[s.name] || exactNames[s.name] {
 			continue
 		}
 		c.check(tree != "" && len(missing) == 0, "C03.layering", f, "decision skeleton contains the required checks of the grammar", nil,
@@ -258,10 +261,17 @@ func runC03(c *Ctx) {
 			nExact++
 		}
 	}
-	if nExact > 0 {
+	nNames := 0
+	for _, s := range c03Specs {
+		if exactNames[s.name] {
+			nNames++
+		}
+	}
+	if nExact > 0 || nNames > 0 {
 		c.L.Floor("C03.accept-window", 7-nExact)
 		c.L.Floor("C03.reject-window", max(5-2*nExact, 0))
-		c.L.Floor("C03.layering", 7-nExact)
+		c.L.Floor("C03.layering", 7-nExact-nNames)
+		c.L.Floor("C03.label-iteration", max(3-nNames, 0))
 	}
 	// ---- R3 rune classes ----
 	c03Runes(c, exactLabels["ValidateTLDLabel"] && exactLabels["isValidTLDLabel"])
